@@ -9,7 +9,13 @@
            executable stand-in and compares every capture with the crate's); the shape of the CAPTURE regex
            (named groups); heck / Unicode case conversions (oracles fed from the crate).
    Part 3: witnesses: non-vacuity of every hypothesis, and, for each side condition, an input of the excluded class
-           on which the conclusion fails (the known findings kf_* of corpus/C10). *)
+           on which the conclusion fails.
+   Substitution, history: the PINNED crate substituted with one str::replace per variable ([sod_replace]); that
+   algorithm re-substituted values containing "@name" and could glue adjacent references (findings
+   kf_value_resubstituted, kf_adjacent_refs_glue).  Commit df98c41 replaced it by ONE left-to-right pass
+   ([sod_replace_onepass], the function the pipeline model now uses).  T0a-T0d are the unconditional statements about
+   the repaired code; T1-T3 and the witnesses (i)-(iv) are about the PINNED algorithm and now read as: the repair
+   changes the result nowhere under [subst_safe], and exactly on the witnesses' classes outside it. *)
 Require Import Coq.Strings.String.
 Require Import RIO.Base RIO.Pct RIO.Url RIO.Prefix RIO.RegexSem RIO.Marker RIO.MarkerProofs RIO.Rx RIO.C10Run.
 Open Scope N_scope.
@@ -69,7 +75,49 @@ Proof. repeat split; vm_compute; reflexivity. Qed.
 (* ================================================================================================== *)
 (* Part 2: theorems *)
 
-(* T1. Substitution.  StaticOrDynamic::replace (one str::replace per variable, in list order) equals the simultaneous
+(* T0a. The repaired StaticOrDynamic::replace (df98c41: one pass; at each '@' the loop over the variables keeps the
+   first one among those with the longest name that follows) IS the simultaneous longest-name substitution — no side
+   condition.  Not definitional: [sod_replace_onepass] transliterates the Rust loop ([pick_longest], a fold in LIST
+   order with a strict comparison), [simul_longest] is the reference (first match in the stably length-sorted list). *)
+Theorem C10_substitute_onepass : forall (vars : list (str * str)) (s : str),
+  sod_replace_onepass s vars = simul_longest vars s.
+Proof. exact onepass_is_simul_longest. Qed.
+
+(* T0b. What the loop picks at an '@' followed by t: a variable whose name follows, no variable with a longer name
+   follows; nothing is picked only when no name follows. *)
+Theorem C10_onepass_picks_longest : forall (vars : list (str * str)) (t : str),
+  (forall nv, pick_longest vars t = Some nv ->
+     In nv vars /\ prefixb (fst nv) t = true
+     /\ forall nv', In nv' vars -> prefixb (fst nv') t = true -> (length (fst nv') <= length (fst nv))%nat)
+  /\ (pick_longest vars t = None -> forall nv', In nv' vars -> prefixb (fst nv') t = false).
+Proof.
+  intros vars t. split; [intros nv; apply pick_longest_spec|]. rewrite pick_longest_sorted. apply longest_pick_none.
+Qed.
+
+(* T0c. The order of the variables does not matter any more (pairwise different names): neither the HashMap iteration
+   order of Rule::variables nor the sort by name length (which the crate still performs) influences the result. *)
+Theorem C10_onepass_order_irrelevant : forall (vars vars' : list (str * str)) (s : str),
+  Permutation vars vars' -> NoDup (map fst vars) ->
+  sod_replace_onepass s vars = sod_replace_onepass s vars'
+  /\ sod_replace_onepass s (sort_desc name_len vars) = sod_replace_onepass s vars.
+Proof. intros vars vars' s P Hnd. split; [apply onepass_order_irrelevant; assumption|apply onepass_sorted; exact Hnd]. Qed.
+
+(* T0d. No re-substitution: the text is a sequence of literal characters and references "@name" to variables of the
+   list; the result is the same sequence with every reference replaced by the value of that very variable.  Values are
+   output verbatim: a value containing "@name" stays as it is, two adjacent references cannot glue. *)
+Theorem C10_onepass_no_rescan : forall (vars : list (str * str)) (s : str),
+  exists pieces : list out_piece,
+    s = flat_map out_src pieces /\ sod_replace_onepass s vars = flat_map out_dst pieces
+    /\ forall nv, In (OVal nv) pieces -> In nv vars.
+Proof. exact onepass_no_rescan. Qed.
+
+(* T0e. The repair changes nothing under the side condition of T1: there the pinned sequential algorithm (in the
+   order the crate uses) and the one-pass algorithm agree. *)
+Theorem C10_onepass_agrees_with_pinned : forall (vars : list (str * str)) (s : str),
+  subst_safe vars s = true -> sod_replace s (sort_desc name_len vars) = sod_replace_onepass s vars.
+Proof. exact onepass_agrees_sequential. Qed.
+
+(* T1 (PINNED algorithm).  The sequential StaticOrDynamic::replace (one str::replace per variable, in list order) equals the simultaneous
    substitution (each "@name" occurrence of the ORIGINAL text replaced once, values never rescanned) under
    [subst_safe vars s]:
      - no name and no value contains '@';
@@ -79,7 +127,7 @@ Theorem C10_substitute : forall (vars : list (str * str)) (s : str),
   subst_safe vars s = true -> sod_replace s vars = simul_subst vars s.
 Proof. exact substitute. Qed.
 
-(* T2. Longest first.  With the order the code uses (stable sort by name length, longest first), the sequential
+(* T2 (PINNED algorithm). Longest first.  With the order the code uses (stable sort by name length, longest first), the sequential
    replacement is the LONGEST-name substitution: at every '@' the variable picked has a name that follows, and no
    variable with a longer name follows.  Hence "@ab" is ab's value even when a is a variable too. *)
 Theorem C10_longest_first : forall (vars : list (str * str)) (s : str),
@@ -95,8 +143,9 @@ Theorem C10_longer_name_wins : forall (vars : list (str * str)) (n m v w t : str
   exists nv, find_ref (sort_desc name_len vars) t = Some nv /\ (length m <= length (fst nv))%nat /\ fst nv <> n.
 Proof. exact longer_name_wins. Qed.
 
-(* T3. The order among names of equal length (HashMap iteration order of Rule::variables when the rule declares no
-   variables; the model fixes the bytewise order) does not matter. *)
+(* T3 (PINNED algorithm). The order among names of equal length (HashMap iteration order of Rule::variables when the
+   rule declares no variables; the model fixes the bytewise order) does not matter under the side condition.  For the
+   repaired code see T0c (no side condition). *)
 Theorem C10_order_irrelevant : forall (vars vars' : list (str * str)) (s : str),
   Permutation vars vars' -> NoDup (map fst vars) -> subst_safe vars s = true ->
   sod_replace s (sort_desc name_len vars) = sod_replace s (sort_desc name_len vars').
@@ -201,41 +250,59 @@ Example C10_substitute_nonvacuous :
   /\ sod_replace (lit "/t/@ab/@a-@abc@id?q=@zz&u=me@") (sort_desc name_len vars_a_ab) = lit "/t/7/x-7c2024-01-31?q=@zz&u=me@".
 Proof. split; vm_compute; reflexivity. Qed.
 
-(* ... and is needed.  (i) A value containing "@name" is substituted again (kf_value_resubstituted): *)
+(* ... and is needed FOR THE PINNED ALGORITHM; each witness also evaluates the repaired function on the same input.
+   (i) A value containing "@name" was substituted again (finding kf_value_resubstituted, fixed by df98c41;
+   corpus/C10/witness_value_with_at_name.json): *)
 Lemma C10_clobber_witness : exists (vars : list (str * str)) (s : str),
   all_at_free (names_of vars) = true /\ all_at_free (map snd vars) = false
-  /\ sod_replace s (sort_desc name_len vars) <> simul_longest vars s.
+  /\ sod_replace s (sort_desc name_len vars) <> simul_longest vars s
+  /\ sod_replace s (sort_desc name_len vars) = lit "/t/7"
+  /\ sod_replace_onepass s (sort_desc name_len vars) = lit "/t/@cd".
 Proof.
   exists [(lit "abc", lit "@cd"); (lit "cd", lit "7")], (lit "/t/@abc"). repeat split; try (vm_compute; reflexivity).
   vm_compute. discriminate.
 Qed.
 
 (* (ii) No '@' in any name or value, yet the result differs: the text between two '@' ("id") is a strict prefix of
-   the name "idd", and the value "d" of the next reference completes it (kf_adjacent_refs_glue).  This is why the
-   side condition has its second clause: "no value contains '@' followed by a name" is not sufficient. *)
+   the name "idd", and the value "d" of the next reference completes it (finding kf_adjacent_refs_glue, fixed by
+   df98c41; corpus/C10/witness_adjacent_refs.json).  This is why the side condition has its second clause: "no value
+   contains '@' followed by a name" is not sufficient. *)
 Lemma C10_juxtaposition_witness : exists (vars : list (str * str)) (s : str),
   all_at_free (names_of vars) = true /\ all_at_free (map snd vars) = true /\ subst_safe vars s = false
-  /\ sod_replace s (sort_desc name_len vars) <> simul_longest vars s.
+  /\ sod_replace s (sort_desc name_len vars) <> simul_longest vars s
+  /\ sod_replace s (sort_desc name_len vars) = lit "/t/7"
+  /\ sod_replace_onepass s (sort_desc name_len vars) = lit "/t/xd".
 Proof.
   exists [(lit "abcd", lit "d"); (lit "idd", lit "7"); (lit "id", lit "x")], (lit "/t/@id@abcd"). repeat split; try (vm_compute; reflexivity).
   vm_compute. discriminate.
 Qed.
 
-(* (iii) Without the sort a shorter name clobbers a longer one: the order matters, the code's order is the right one *)
+(* (iii) Without the sort a shorter name clobbered a longer one in the pinned algorithm; the one-pass function gives
+   the longest-name result whatever the order *)
 Lemma C10_unsorted_clobbers : exists (vars : list (str * str)) (s : str),
   subst_safe vars s = true /\ sod_replace s vars <> sod_replace s (sort_desc name_len vars)
-  /\ sod_replace s (sort_desc name_len vars) = lit "7".
+  /\ sod_replace s (sort_desc name_len vars) = lit "7" /\ sod_replace_onepass s vars = lit "7".
 Proof. exists [(lit "a", lit "x"); (lit "ab", lit "7")], (lit "@ab"). repeat split; try (vm_compute; reflexivity). vm_compute. discriminate. Qed.
 
-(* (iv) Names of equal length, a value containing the other name: the two processing orders differ — on the crate
-   this is a dependence on HashMap iteration order (excluded by subst_safe) *)
+(* (iv) Names of equal length, a value containing the other name: the two processing orders of the pinned algorithm
+   differ — on the pinned crate this was a dependence on HashMap iteration order (excluded by subst_safe); the
+   repaired function gives the same result for both orders (T0c) *)
 Lemma C10_equal_length_order_witness : exists (vars vars' : list (str * str)) (s : str),
   Permutation vars vars' /\ NoDup (map fst vars) /\ subst_safe vars s = false
-  /\ sod_replace s (sort_desc name_len vars) <> sod_replace s (sort_desc name_len vars').
+  /\ sod_replace s (sort_desc name_len vars) <> sod_replace s (sort_desc name_len vars')
+  /\ sod_replace_onepass s (sort_desc name_len vars) = lit "@cd" /\ sod_replace_onepass s (sort_desc name_len vars') = lit "@cd".
 Proof.
   exists [(lit "ab", lit "@cd"); (lit "cd", lit "x")], [(lit "cd", lit "x"); (lit "ab", lit "@cd")], (lit "@ab").
-  split; [apply perm_swap|]. split; [repeat constructor; cbn; intuition discriminate|]. split; [vm_compute; reflexivity|]. vm_compute. discriminate.
+  split; [apply perm_swap|]. split; [repeat constructor; cbn; intuition discriminate|]. split; [vm_compute; reflexivity|].
+  split; [vm_compute; discriminate|]. split; vm_compute; reflexivity.
 Qed.
+
+(* the tie rules of the repaired loop: among equal names the FIRST of the list; a variable with an EMPTY name follows
+   every '@' and is used only where no non-empty name follows (corpus/C10/witness_empty_variable_name.json) *)
+Example C10_onepass_tie_rules :
+  sod_replace_onepass (lit "@a/@b/@") [(lit "a", lit "1"); (lit "", lit "E"); (lit "a", lit "2")] = lit "1/Eb/E"
+  /\ simul_longest [(lit "a", lit "1"); (lit "", lit "E"); (lit "a", lit "2")] (lit "@a/@b/@") = lit "1/Eb/E".
+Proof. split; vm_compute; reflexivity. Qed.
 
 (* ---- T4: template_ok holds on an ordinary template with names sharing a prefix, meta characters and a literal '@'-free
    text; the theorem's conclusion evaluated *)
@@ -323,6 +390,11 @@ Lemma C10_header_name_case :
   /\ route_capture rxE rt (req_hdr (lit "x-id") (lit "id=12")) = [(lit "id", lit "12")].
 Proof. cbn zeta. split; vm_compute; reflexivity. Qed.
 
+Print Assumptions C10_substitute_onepass.
+Print Assumptions C10_onepass_picks_longest.
+Print Assumptions C10_onepass_order_irrelevant.
+Print Assumptions C10_onepass_no_rescan.
+Print Assumptions C10_onepass_agrees_with_pinned.
 Print Assumptions C10_substitute.
 Print Assumptions C10_longest_first.
 Print Assumptions C10_longer_name_wins.
